@@ -1380,8 +1380,12 @@ namespace awkward {
     /// This allows a RecordArray or {@link UnionArrayOf UnionArray} with
     /// different depths to accept `axis = -1` as the last axis, regardless
     /// of how deep that is in different record fields or union possibilities.
+    ///
+    /// @param axis The axis to wrap, if negative.
+    /// @param depth The depth of this node below the array that the `axis`
+    /// refers to (same convention as the `depth` argument of #num, etc.).
     const int64_t
-      axis_wrap_if_negative(int64_t axis) const;
+      axis_wrap_if_negative(int64_t axis, int64_t depth = 0) const;
 
     /// @brief Recursively copies components of the array from main memory to a
     /// GPU (if `ptr_lib == kernel::lib::cuda`) or to main memory (if
